@@ -12,6 +12,15 @@ def CtxOK (Γ : Ctx) : Prop := ∀ n w, Γ n = some w → w.ok
 /-- every wire of the context has a value of its declared width -/
 def EnvOK (Γ : Ctx) (σ : Env) : Prop := ∀ n w, Γ n = some w → ∃ v, σ n = some ⟨v, w⟩ ∧ v < w.card
 
+/-- every wire in `names` that the context knows has a value of its declared width -/
+def EnvOn (Γ : Ctx) (σ : Env) (names : List String) : Prop :=
+  ∀ n, n ∈ names → ∀ w, Γ n = some w → ∃ v, σ n = some ⟨v, w⟩ ∧ v < w.card
+
+theorem EnvOn.mono {Γ σ L L'} (h : EnvOn Γ σ L) (hsub : ∀ n, n ∈ L' → n ∈ L) : EnvOn Γ σ L' :=
+  fun n hn => h n (hsub n hn)
+
+theorem EnvOK.on {Γ σ} (h : EnvOK Γ σ) (L : List String) : EnvOn Γ σ L := fun n _ w hw => h n w hw
+
 def val (σ : Env) : String → Nat := fun n => match σ n with
   | some v => v.bits
   | none => 0
@@ -129,9 +138,9 @@ theorem join_join_self (a r : Width) : Spec.join a (Spec.join a r) = Spec.join a
 variable {fl : Flags} {Γ : Ctx} {κ σ : Env}
 
 mutual
-theorem ev_correct (hΓ : CtxOK Γ) (hσ : EnvOK Γ σ) :
-    ∀ (e : Ex) (w : Width), wfEx e = true → check fl Γ κ e = .ok w → Correct fl Γ κ σ e w
-  | .const v, w, hwf, h => by
+theorem ev_correct (hΓ : CtxOK Γ) :
+    ∀ (e : Ex) (w : Width), EnvOn Γ σ (refs e) → wfEx e = true → check fl Γ κ e = .ok w → Correct fl Γ κ σ e w
+  | .const v, w, _, hwf, h => by
       simp only [check, pure, Except.pure] at h
       cases h
       unfold wfEx at hwf
@@ -143,23 +152,23 @@ theorem ev_correct (hΓ : CtxOK Γ) (hσ : EnvOK Γ σ) :
         cases hv : v.width <;> simp [hv, Width.card, U128] at hwf ⊢
         · exact hwf.2
         · exact hwf
-  | .wire n, w, _, h => by
+  | .wire n, w, hσ, _, h => by
       simp only [check] at h
       cases hn : Γ n with
       | none => simp [hn, throw, throwThe, MonadExceptOf.throw] at h
       | some w' =>
         simp only [hn, pure, Except.pure] at h
         cases h
-        obtain ⟨v, hv, hb⟩ := hσ n w hn
+        obtain ⟨v, hv, hb⟩ := hσ n (by simp [refs]) w hn
         refine ⟨hΓ n w hn, by simp [Spec.sw, hn], ?_⟩
         simp only [Spec.dv, fixMux, ev, hv, pure, Except.pure, val]
         exact ⟨by first | rfl | trivial, hb⟩
-  | .bin op l r, w, hwf, h => by
+  | .bin op l r, w, hσ, hwf, h => by
       obtain ⟨a, b, hl, hr, hbw⟩ := check_bin_inv h
       unfold wfEx at hwf
       simp only [Bool.and_eq_true] at hwf
-      obtain ⟨ha, hsa, hla⟩ := ev_correct hΓ hσ l a hwf.1 hl
-      obtain ⟨hb, hsb, hrb⟩ := ev_correct hΓ hσ r b hwf.2 hr
+      obtain ⟨ha, hsa, hla⟩ := ev_correct hΓ l a (hσ.mono (by intro n hn; simp [refs, hn])) hwf.1 hl
+      obtain ⟨hb, hsb, hrb⟩ := ev_correct hΓ r b (hσ.mono (by intro n hn; simp [refs, hn])) hwf.2 hr
       have hwok := binWidth_ok ha hb hbw
       have hsw : w = Spec.sw Γ (.bin op l r) := by
         rw [binWidth_join hbw]; simp only [Spec.sw, ← hsa, ← hsb]
@@ -183,7 +192,7 @@ theorem ev_correct (hΓ : CtxOK Γ) (hσ : EnvOK Γ σ) :
           cases hbv : Spec.binVal op w x y with
           | none => simp
           | some v => exact ⟨rfl, hlt v hbv⟩
-  | .un op e, w, hwf, h => by
+  | .un op e, w, hσ, hwf, h => by
       unfold wfEx at hwf
       have hinv : ∃ a, check fl Γ κ e = .ok a ∧ w = (if op = .not then .bits 1 else a) := by
         cases op
@@ -195,7 +204,7 @@ theorem ev_correct (hΓ : CtxOK Γ) (hσ : EnvOK Γ σ) :
           cases h
           exact ⟨a, ha, by simp⟩
       obtain ⟨a, hca, hw⟩ := hinv
-      obtain ⟨ha, hsa, hea⟩ := ev_correct hΓ hσ e a hwf hca
+      obtain ⟨ha, hsa, hea⟩ := ev_correct hΓ e a (hσ.mono (by intro n hn; simpa [refs] using hn)) hwf hca
       have hwok : w.ok := by
         rw [hw]; split
         · simp [Width.ok]
@@ -224,7 +233,7 @@ theorem ev_correct (hΓ : CtxOK Γ) (hσ : EnvOK Γ σ) :
         · simp only [↓reduceIte] at hw; subst hw
           refine ⟨rfl, ?_⟩
           by_cases h0 : x = 0 <;> simp [h0, Spec.b2n, Width.card]
-  | .slice e lo hi, w, hwf, h => by
+  | .slice e lo hi, w, hσ, hwf, h => by
       unfold wfEx at hwf
       simp only [Bool.and_eq_true, decide_eq_true_eq] at hwf
       simp only [check] at h
@@ -241,7 +250,7 @@ theorem ev_correct (hΓ : CtxOK Γ) (hσ : EnvOK Γ σ) :
             · simp only [pure, Except.pure] at h; cases h; rfl
           | unlimited => simp only [pure, Except.pure] at h; cases h; rfl
         subst hw
-        obtain ⟨ha, hsa, hea⟩ := ev_correct hΓ hσ e a hwf.1 hca
+        obtain ⟨ha, hsa, hea⟩ := ev_correct hΓ e a (hσ.mono (by intro n hn; simpa [refs] using hn)) hwf.1 hca
         have hle : lo ≤ hi := by omega
         refine ⟨by simp only [Width.ok]; omega, by simp [Spec.sw], ?_⟩
         simp only [Spec.dv, fixMux, ev]
@@ -256,7 +265,7 @@ theorem ev_correct (hΓ : CtxOK Γ) (hσ : EnvOK Γ σ) :
           refine ⟨hs, ?_⟩
           simp only [Width.card]
           exact Nat.mod_lt _ (Nat.pow_pos (by decide))
-  | .concat l r, w, hwf, h => by
+  | .concat l r, w, hσ, hwf, h => by
       unfold wfEx at hwf
       simp only [Bool.and_eq_true] at hwf
       simp only [check] at h
@@ -273,8 +282,8 @@ theorem ev_correct (hΓ : CtxOK Γ) (hσ : EnvOK Γ σ) :
           split at h
           · rename_i hsum
             simp only [pure, Except.pure] at h; cases h
-            obtain ⟨ha, hsa, hea⟩ := ev_correct hΓ hσ l _ hwf.1 hca
-            obtain ⟨hb, hsb, heb⟩ := ev_correct hΓ hσ r _ hwf.2 hcb
+            obtain ⟨ha, hsa, hea⟩ := ev_correct hΓ l _ (hσ.mono (by intro n hn; simp [refs, hn])) hwf.1 hca
+            obtain ⟨hb, hsb, heb⟩ := ev_correct hΓ r _ (hσ.mono (by intro n hn; simp [refs, hn])) hwf.2 hcb
             refine ⟨hsum, by simp [Spec.sw, ← hsa, ← hsb, Spec.bitsOf], ?_⟩
             simp only [Spec.dv, fixMux, ev]
             cases hdl : Spec.dv Γ (val σ) l with
@@ -293,7 +302,7 @@ theorem ev_correct (hΓ : CtxOK Γ) (hσ : EnvOK Γ σ) :
                 simp only [hea.1, heb.1, bind, Except.bind, Option.bind, ← hsb, Spec.bitsOf] at hc ⊢
                 exact ⟨hc, hlt⟩
           · simp [throw, throwThe, MonadExceptOf.throw] at h
-  | .mux opts, w, hwf, h => by
+  | .mux opts, w, hσ, hwf, h => by
       unfold wfEx at hwf
       have hchk := h
       simp only [check] at h
@@ -302,7 +311,7 @@ theorem ev_correct (hΓ : CtxOK Γ) (hσ : EnvOK Γ σ) :
         simp only [bind, Except.bind, pure, Except.pure] at h
         repeat (split at h <;> try (simp [throw, throwThe, MonadExceptOf.throw] at h))
         all_goals (first | (rename_i hh; cases h; exact hh) | skip)
-      obtain ⟨hcur, hok, hjoin, hgood⟩ := opts_correct hΓ hσ opts {} s' w hwf hs' hW
+      obtain ⟨hcur, hok, hjoin, hgood⟩ := opts_correct hΓ opts {} s' w (hσ.mono (by intro n hn; simpa [refs] using hn)) hwf hs' hW
       have hwok : w.ok := hok (by simp [Width.ok])
       have hsw : w = Spec.swOpts Γ opts := by
         have := hjoin .unlimited rfl
@@ -339,7 +348,7 @@ theorem ev_correct (hΓ : CtxOK Γ) (hσ : EnvOK Γ σ) :
           refine ⟨hs, ?_⟩
           simp only [Width.card]
           exact Nat.mod_lt _ (Nat.pow_pos (by decide))
-  | .inSet e items, w, hwf, h => by
+  | .inSet e items, w, hσ, hwf, h => by
       unfold wfEx at hwf
       simp only [Bool.and_eq_true] at hwf
       simp only [check] at h
@@ -350,7 +359,7 @@ theorem ev_correct (hΓ : CtxOK Γ) (hσ : EnvOK Γ σ) :
         · simp only [pure, Except.pure] at h; cases h; rfl
         · simp [throw, throwThe, MonadExceptOf.throw] at h
       subst hw
-      obtain ⟨ha, hsa, hea⟩ := ev_correct hΓ hσ e a hwf.1 hca
+      obtain ⟨ha, hsa, hea⟩ := ev_correct hΓ e a (hσ.mono (by intro n hn; simp [refs, hn])) hwf.1 hca
       refine ⟨by simp [Width.ok], by simp [Spec.sw], ?_⟩
       simp only [Spec.dv, fixMux, ev]
       cases hd : Spec.dv Γ (val σ) e with
@@ -359,7 +368,7 @@ theorem ev_correct (hΓ : CtxOK Γ) (hσ : EnvOK Γ σ) :
         simp [hea, bind, Except.bind, Option.bind]
       | some x =>
         simp only [hd] at hea
-        have hin := items_correct hΓ hσ items a errs hwf.2 hci x
+        have hin := items_correct hΓ items a errs (hσ.mono (by intro n hn; simp [refs, hn])) hwf.2 hci x
         unfold InGood at hin
         simp only [hea.1, bind, Except.bind, Option.bind]
         cases hdi : Spec.dvIn Γ (val σ) x items with
@@ -367,29 +376,29 @@ theorem ev_correct (hΓ : CtxOK Γ) (hσ : EnvOK Γ σ) :
         | some v =>
           simp only [hdi] at hin
           exact ⟨hin.1, by simp only [Width.card]; omega⟩
-theorem opts_correct (hΓ : CtxOK Γ) (hσ : EnvOK Γ σ) :
-    ∀ (opts : Opts) (s s' : MuxScan) (W : Width), wfOpts opts = true →
+theorem opts_correct (hΓ : CtxOK Γ) :
+    ∀ (opts : Opts) (s s' : MuxScan) (W : Width), EnvOn Γ σ (refsOpts opts) → wfOpts opts = true →
       checkOpts fl Γ κ opts s = .ok s' → s'.width = some W →
       (∃ cur, s.width = some cur ∧ (cur = .unlimited ∨ cur = W)) ∧
       ((∀ cur, s.width = some cur → cur.ok) → W.ok) ∧
       (∀ cur, s.width = some cur → Spec.join cur (Spec.swOpts Γ opts) = W) ∧
       MuxGood fl Γ κ σ opts W
-  | .nil, s, s', W, _, h, hW => by
+  | .nil, s, s', W, _, _, h, hW => by
       simp only [checkOpts, pure, Except.pure] at h
       cases h
       refine ⟨⟨W, hW, Or.inr rfl⟩, fun hh => hh W hW, ?_, ?_⟩
       · intro cur hc; rw [hW] at hc; cases hc; simp [Spec.swOpts, join_unl_right]
       · simp only [MuxGood, Spec.dvOpts, fixMuxOpts, evMux, pure, Except.pure]
         exact ⟨.unlimited, rfl, Or.inl rfl, by simp [Width.card, U128]⟩
-  | .cons c v rest, s, s', W, hwf, h, hW => by
+  | .cons c v rest, s, s', W, hσ, hwf, h, hW => by
       unfold wfOpts at hwf
       simp only [Bool.and_eq_true] at hwf
       simp only [checkOpts] at h
       obtain ⟨cw, hcc, h⟩ := bind_ok h
       obtain ⟨aw, hcv, h⟩ := bind_ok h
-      obtain ⟨⟨cur1, hs1, hcur1⟩, hok1, hjoin1, hgood1⟩ := opts_correct hΓ hσ rest _ s' W hwf.2 h hW
-      obtain ⟨hcwok, _, hec⟩ := ev_correct hΓ hσ c cw hwf.1.1 hcc
-      obtain ⟨hawok, hsaw, hev⟩ := ev_correct hΓ hσ v aw hwf.1.2 hcv
+      obtain ⟨⟨cur1, hs1, hcur1⟩, hok1, hjoin1, hgood1⟩ := opts_correct hΓ rest _ s' W (hσ.mono (by intro n hn; simp [refsOpts, hn])) hwf.2 h hW
+      obtain ⟨hcwok, _, hec⟩ := ev_correct hΓ c cw (hσ.mono (by intro n hn; simp [refsOpts, hn])) hwf.1.1 hcc
+      obtain ⟨hawok, hsaw, hev⟩ := ev_correct hΓ v aw (hσ.mono (by intro n hn; simp [refsOpts, hn])) hwf.1.2 hcv
       -- the scanned width before this option
       cases hsw : s.width with
       | none => simp [hsw] at hs1
@@ -451,19 +460,19 @@ theorem opts_correct (hΓ : CtxOK Γ) (hσ : EnvOK Γ σ) :
               subst hx0
               simp only [ne_eq, not_true_eq_false, ↓reduceIte, gt_iff_lt, Nat.lt_irrefl]
               exact hgood1
-theorem items_correct (hΓ : CtxOK Γ) (hσ : EnvOK Γ σ) :
-    ∀ (items : Exs) (a : Width) (errs : List Diag), wfExs items = true →
+theorem items_correct (hΓ : CtxOK Γ) :
+    ∀ (items : Exs) (a : Width) (errs : List Diag), EnvOn Γ σ (refsExs items) → wfExs items = true →
       checkItems fl Γ κ a items = .ok errs → ∀ x, InGood fl Γ κ σ x items
-  | .nil, _, _, _, _, x => by
+  | .nil, _, _, _, _, _, x => by
       simp [InGood, Spec.dvIn, fixMuxExs, evIn, pure, Except.pure]
-  | .cons e rest, a, errs, hwf, h, x => by
+  | .cons e rest, a, errs, hσ, hwf, h, x => by
       unfold wfExs at hwf
       simp only [Bool.and_eq_true] at hwf
       simp only [checkItems] at h
       obtain ⟨b, hcb, h⟩ := bind_ok h
       obtain ⟨more, hcm, _⟩ := bind_ok h
-      obtain ⟨_, _, hee⟩ := ev_correct hΓ hσ e b hwf.1 hcb
-      have hrest := items_correct hΓ hσ rest a more hwf.2 hcm x
+      obtain ⟨_, _, hee⟩ := ev_correct hΓ e b (hσ.mono (by intro n hn; simp [refsExs, hn])) hwf.1 hcb
+      have hrest := items_correct hΓ rest a more (hσ.mono (by intro n hn; simp [refsExs, hn])) hwf.2 hcm x
       unfold InGood at hrest ⊢
       simp only [Spec.dvIn, fixMuxExs, evIn]
       cases hd : Spec.dv Γ (val σ) e with
